@@ -270,7 +270,7 @@ func listersInSync(w *plugin.World) bool {
 	for i := range ts.Items {
 		t := &ts.Items[i]
 		l, err := w.Plugin.StatefulSetLister.StatefulSets(t.Namespace).Get(t.Name)
-		if err != nil || *l.Spec.Replicas != *t.Spec.Replicas {
+		if err != nil || stsN(l.Spec.Replicas) != stsN(t.Spec.Replicas) {
 			return false
 		}
 	}
@@ -290,3 +290,11 @@ func listersInSync(w *plugin.World) bool {
 }
 
 var _ = schema.GroupVersionResource{}
+
+// stsN: `.spec.replicas` of a statefulset, unset meaning one replica.
+func stsN(p *int32) int32 {
+	if p == nil {
+		return 1
+	}
+	return *p
+}
